@@ -125,6 +125,16 @@ class Ctx(object):
             return
         self._later[name] = (probe, value, what)
 
+    def later_refresh(self, name):
+        '''the case itself changed the object on purpose: what is compared later is its state from now on'''
+        prev = self._later.get(name)
+        if prev is not None:
+            probe, _, what = prev
+            try:
+                self._later[name] = (probe, probe(), what)
+            except Exception:                            # noqa
+                self._later.pop(name, None)
+
     def case(self, canon, nontrivial=True, sample=None):
         '''
         Record one explored case. *canon* is a canonical (hashable/jsonable)
